@@ -2,6 +2,7 @@ import Req.Driver.Proto
 import Req.H2.Flow
 import Req.H2.Conn
 import Req.H2.Monitor
+import Req.H2.Cut
 /-!
 Driver lanes of C06.
 
@@ -103,6 +104,24 @@ def parseOp (s : String) : Option Op :=
 
 def parseOps (s : String) : Option (List Op) := (splitNonEmpty s ";").mapM parseOp
 
+/-- round 5: `oc:<hdrLen>:<body>:<known>:<head>:<trailer>:<cut>` = a request cancelled after `cut`
+octets of its header block; `hx:<fid>:<n>:<id>` / `hr:<fid>:<n>:<id>:<m>` / `hc:<fid>:<n>:<id>` =
+Body.Close / Body.Read / cancel on stream `id` while the writer of stream `fid` (handed `n` octets)
+is parked inside a DATA frame; `tc:<fid>:<n>:<cut>` = the last feed of an upload with trailers, cancelled
+after `cut` octets of the trailer block -/
+def parseXOp (s : String) : Option Cut.XOp :=
+  match s.splitOn ":" with
+  | ["oc", h, b, k, hd, tr, cut] => do
+    pure (.openCancel { hdrLen := ← h.toNat?, bodyLen := ← b.toNat?, known := k == "1", head := hd == "1",
+                        trailer := ← parseOptNat tr } (← cut.toNat?))
+  | ["hx", fid, n, id] => do pure (.held (← fid.toNat?) (← n.toNat?) (.close (← id.toNat?)))
+  | ["hr", fid, n, id, m] => do pure (.held (← fid.toNat?) (← n.toNat?) (.read (← id.toNat?) (← m.toNat?)))
+  | ["hc", fid, n, id] => do pure (.held (← fid.toNat?) (← n.toNat?) (.cancel (← id.toNat?)))
+  | ["tc", fid, n, cut] => do pure (.feedCancel (← fid.toNat?) (← n.toNat?) (← cut.toNat?))
+  | _ => (parseOp s).map Cut.XOp.plain
+
+def parseXOps (s : String) : Option (List Cut.XOp) := (splitNonEmpty s ";").mapM parseXOp
+
 def flag (b : Bool) (c : String) : String := if b then c else "-"
 
 def showFrame : Frame → String
@@ -142,12 +161,12 @@ def showStep (r : List Frame × Bool × Bool) : String :=
 
 def laneScript : List String → String
   | [fx, strict, settings, connFlow, prio, hdrPrio, mhl, ops] =>
-    match parseFixes fx, parsePairs settings, connFlow.toNat?, parseNats prio, mhl.toNat?, parseOps ops with
+    match parseFixes fx, parsePairs settings, connFlow.toNat?, parseNats prio, mhl.toNat?, parseXOps ops with
     | some fx, some settings, some connFlow, some prio, some mhl, some ops =>
       let cfg : Cfg := { settings := settings, connFlow := connFlow, prio := prio, hdrPrio := hdrPrio == "1",
                          maxHeaderList := mhl, strict := strict == "1", fixes := fx }
       let (st, pre) := newConn cfg
-      let steps := scriptRun st ops
+      let steps := Cut.xscriptRun Cut.Variant.real st ops
       ";".intercalate (((pre.map showFrame) |> fun l => ",".intercalate l) :: steps.map showStep)
     | _, _, _, _, _, _ => "bad-op"
   | _ => "bad-op"
